@@ -197,6 +197,10 @@ static int vp_errno_any(bool eintr_possible)
   if (!(eintr_possible && vp_eintr_on)) {
     VP_ASSUME(e != EINTR);
   }
+  /* ETIMEDOUT, EPIPE and EAGAIN are never what an injected failure reports: reproc gives these
+   * three values a meaning of its own (timeout, closed stream, would block), and none of the
+   * modelled calls can fail with them other than through the semantics modelled explicitly */
+  VP_ASSUME(e != ETIMEDOUT && e != EPIPE && e != EAGAIN);
   return e;
 }
 
@@ -1040,6 +1044,47 @@ ssize_t vp_write(int fd, const void *buf, size_t n)
   return -1;
 }
 
+/* fill revents for the current state, return the number of descriptors with events */
+static int vp_poll_scan(struct pollfd *fds, unsigned long n)
+{
+  int cnt = 0;
+  for (unsigned long i = 0; i < n; i++) {
+    short re = 0;
+    int fd = fds[i].fd;
+    if (fd < 0) {
+      fds[i].revents = 0;
+      continue;
+    }
+    if (!vp_fd_ok(fd)) {
+      re = POLLNVAL;
+    } else {
+      int o = vp_fd_ofd[fd];
+      int p = vp_of_pipe[o];
+      if (vp_of_kind[o] == VP_K_PIPE_R) {
+        if (vp_pp_len[p] > 0 && (fds[i].events & POLLIN)) {
+          re |= POLLIN;
+        }
+        if (!vp_pipe_has_writer(p)) {
+          re |= POLLHUP;
+        }
+      } else if (vp_of_kind[o] == VP_K_PIPE_W) {
+        if (!vp_pipe_has_reader(p)) {
+          re |= POLLERR;
+        } else if (vp_pp_len[p] < VP_CAP && (fds[i].events & POLLOUT)) {
+          re |= POLLOUT;
+        }
+      } else {
+        re = fds[i].events & (POLLIN | POLLOUT);
+      }
+    }
+    fds[i].revents = re;
+    if (re != 0) {
+      cnt++;
+    }
+  }
+  return cnt;
+}
+
 int vp_poll(struct pollfd *fds, unsigned long n, int timeout)
 {
   vp_calls_total++;
@@ -1047,48 +1092,25 @@ int vp_poll(struct pollfd *fds, unsigned long n, int timeout)
   vp_poll_last_timeout = timeout;
   vp_poll_last_T = vp_T;
   VP_TRACE("poll(n=%lu, fd0=%d, timeout=%d)", n, n ? fds[0].fd : -1, timeout);
-  if (vp_fault()) {
-    return vp_fail(vp_errno_any(true));
-  }
   vp_exec_done();
-  int64_t limit = timeout < 0 ? VP_NEVER : vp_T + timeout;
   vp_progress();
-  for (int it = 0; it <= VP_MAXEV; it++) {
-    int cnt = 0;
-    for (unsigned long i = 0; i < n; i++) {
-      short re = 0;
-      int fd = fds[i].fd;
-      if (fd < 0) {
-        fds[i].revents = 0;
-        continue;
+  if (vp_fault()) {
+    int e = vp_errno_any(true);
+    if (e == EINTR && timeout != 0 && vp_poll_scan(fds, n) == 0) {
+      /* a signal handler interrupts the wait: part of the timeout has already elapsed and
+       * nothing that would have ended the wait happened in between */
+      int dt = vp_choice(0, VP_DTMAX);
+      VP_ASSUME(timeout < 0 || dt <= timeout);
+      for (int c = 0; c < VP_NCHILD; c++) {
+        VP_ASSUME((vp_c_state[c] != VP_C_RUNNING && vp_c_state[c] != VP_C_FORKED) || vp_c_dead_at[c] > vp_T + dt);
       }
-      if (!vp_fd_ok(fd)) {
-        re = POLLNVAL;
-      } else {
-        int o = vp_fd_ofd[fd];
-        int p = vp_of_pipe[o];
-        if (vp_of_kind[o] == VP_K_PIPE_R) {
-          if (vp_pp_len[p] > 0 && (fds[i].events & POLLIN)) {
-            re |= POLLIN;
-          }
-          if (!vp_pipe_has_writer(p)) {
-            re |= POLLHUP;
-          }
-        } else if (vp_of_kind[o] == VP_K_PIPE_W) {
-          if (!vp_pipe_has_reader(p)) {
-            re |= POLLERR;
-          } else if (vp_pp_len[p] < VP_CAP && (fds[i].events & POLLOUT)) {
-            re |= POLLOUT;
-          }
-        } else {
-          re = fds[i].events & (POLLIN | POLLOUT);
-        }
-      }
-      fds[i].revents = re;
-      if (re != 0) {
-        cnt++;
-      }
+      vp_T += dt;
     }
+    return vp_fail(e);
+  }
+  int64_t limit = timeout < 0 ? VP_NEVER : vp_T + timeout;
+  for (int it = 0; it <= VP_MAXEV; it++) {
+    int cnt = vp_poll_scan(fds, n);
     if (cnt > 0) {
       return cnt;
     }
